@@ -7,6 +7,13 @@ package layer
 // eStargz blobs.  Timer expiry is driven through cacheutil's VerifC12Expire shim (lock +
 // evictLocked, the body of the timer function); the configured TTL is so long that real timers
 // never fire.  Connectivity checks really probe the registry (CheckAlways).
+//
+// Robustness against harmless rewrites: everything is driven and observed through the EXPORTED API
+// (NewResolver, Resolver.Resolve, the Layer interface, go-fuse's node interfaces, the directories
+// under the resolver root).  The two things that have no exported access are found by TYPE, not by
+// name, with reflection (verifC12Caches: the *cacheutil.TTLCache fields of Resolver;
+// verifC12Identity: the shared object behind a returned Layer handle); cache keys are learnt from
+// the caches themselves, never computed.
 
 import (
 	"context"
@@ -15,12 +22,14 @@ import (
 	"net/http"
 	"os"
 	"path/filepath"
+	"reflect"
 	"sort"
 	"strings"
 	"sync"
 	"sync/atomic"
 	"testing"
 	"time"
+	"unsafe"
 
 	"github.com/containerd/containerd/v2/pkg/reference"
 	"github.com/containerd/log"
@@ -33,6 +42,7 @@ import (
 	"github.com/containerd/stargz-snapshotter/metadata"
 	memorymetadata "github.com/containerd/stargz-snapshotter/metadata/memory"
 	"github.com/containerd/stargz-snapshotter/task"
+	"github.com/containerd/stargz-snapshotter/util/cacheutil"
 	tutil "github.com/containerd/stargz-snapshotter/util/testutil"
 	fusefs "github.com/hanwen/go-fuse/v2/fs"
 	"github.com/hanwen/go-fuse/v2/fuse"
@@ -56,7 +66,7 @@ func verifC12Content(seed, n int) string {
 	x := uint32(seed)*2654435761 + 12345
 	for i := range b {
 		x = x*1664525 + 1013904223
-		b[i] = "abcdefghijklmnopqrstuvwxyz012345"[(x>>24)&31]
+		b[i] = byte(x >> 24)
 	}
 	return string(b)
 }
@@ -66,7 +76,7 @@ func verifC12Sources(t *testing.T, reg *verifreg.Registry) []verifC12Src {
 	for k := 0; k < verifC12NumNames; k++ {
 		files := map[string]string{
 			"a.txt": verifC12Content(k*7+1, 3000+500*k),
-			"b.bin": verifC12Content(k*7+2, 20000+1000*k),
+			"b.bin": verifC12Content(k*7+2, 60000+3000*k), // incompressible: spans many 8 KiB blob chunks
 			"c":     verifC12Content(k*7+3, 100),
 		}
 		ents := []tutil.TarEntry{
@@ -107,11 +117,48 @@ func (m *verifC12Meta) Close() error {
 	return m.Reader.Close()
 }
 
+// ---------------------------------------------------------------- access without exported API (by type)
+
+// verifC12Caches returns the *cacheutil.TTLCache fields of the Resolver, in declaration order.
+func verifC12Caches(r *Resolver) []*cacheutil.TTLCache {
+	var out []*cacheutil.TTLCache
+	want := reflect.TypeOf((*cacheutil.TTLCache)(nil))
+	v := reflect.ValueOf(r).Elem()
+	for i := 0; i < v.NumField(); i++ {
+		if f := v.Field(i); f.Type() == want && !f.IsNil() {
+			out = append(out, (*cacheutil.TTLCache)(unsafe.Pointer(f.Pointer())))
+		}
+	}
+	return out
+}
+
+// verifC12Identity identifies the shared layer object behind a handle returned by Resolve: the
+// first pointer (or interface holding a pointer) to a struct inside the handle; handles of one
+// cached layer carry the same one.  Falls back to the handle itself.
+func verifC12Identity(l Layer) uintptr {
+	v := reflect.ValueOf(l)
+	if v.Kind() == reflect.Ptr && !v.IsNil() {
+		if s := v.Elem(); s.Kind() == reflect.Struct {
+			for i := 0; i < s.NumField(); i++ {
+				f := s.Field(i)
+				if f.Kind() == reflect.Interface && !f.IsNil() {
+					f = f.Elem()
+				}
+				if f.Kind() == reflect.Ptr && !f.IsNil() && f.Elem().Kind() == reflect.Struct {
+					return f.Pointer()
+				}
+			}
+		}
+		return v.Pointer()
+	}
+	return 0
+}
+
 // ---------------------------------------------------------------- environment
 
 type verifC12Plan struct {
 	kind                   int // 0: registry up; 1: Resolve with oracle; 2: Refresh
-	key                    string
+	name                   int
 	lchk, bchk, bres, mres bool // true = that step succeeds
 	reg                    bool
 	mode                   verifreg.Mode
@@ -120,21 +167,21 @@ type verifC12Plan struct {
 
 type verifC12Inst struct {
 	id      int
-	l       *layer
 	name    int
+	h0      Layer               // the first handle handed out for this instance (kept for observation)
+	root    fusefs.InodeEmbedder // a root node obtained while the first holder held it
 	meta    *verifC12Meta
 	fsDir   string
-	blob    remote.Blob
-	fileID  uint32
-	holders int  // live holders (oracle's own count)
-	evicted bool // an eviction event happened for this instance (oracle's own knowledge)
+	httpDir string // directory of the blob this layer uses = the blob's identity
+	holders int    // live holders (oracle's own count)
+	evicted bool   // an eviction event happened for this instance (oracle's own knowledge)
 	status  string
 }
 
 type verifC12Holder struct {
 	inst *verifC12Inst
-	ref  *layerRef
-	root *node
+	ref  Layer
+	root fusefs.InodeEmbedder
 	live bool
 }
 
@@ -150,14 +197,19 @@ type verifC12Env struct {
 
 	root     string
 	r        *Resolver
-	insts    map[*layer]*verifC12Inst
+	caches   []*cacheutil.TTLCache
+	isBlob   map[*cacheutil.TTLCache]bool           // classified once a value has been seen in it
+	known    map[*cacheutil.TTLCache]bool
+	keys     map[*cacheutil.TTLCache]map[int][]string // cache keys learnt per name
+	insts    map[uintptr]*verifC12Inst
 	order    []*verifC12Inst
-	blobDirs map[remote.Blob]string
+	lastHTTP map[int]string // newest httpcache directory created by a Resolve of that name
 	holders  []*verifC12Holder
 	cur      map[int]*verifC12Inst
 
 	mu        sync.Mutex
 	plan      verifC12Plan
+	lastMeta  *verifC12Meta
 	metaCalls atomic.Int64
 }
 
@@ -182,13 +234,85 @@ func verifC12NewEnv(t *testing.T, out *verifutil.Out) *verifC12Env {
 	return e
 }
 
-func (e *verifC12Env) key(k int) string { return e.ref.String() + "/" + e.srcs[k].desc.Digest.String() }
+// ---- cache keys and cache roles are learnt from the caches themselves
+
+func (e *verifC12Env) snapshotKeys() map[*cacheutil.TTLCache][]string {
+	out := map[*cacheutil.TTLCache][]string{}
+	for _, c := range e.caches {
+		out[c] = c.VerifC12Keys()
+	}
+	return out
+}
+
+// learn records the keys that appeared in each cache during a Resolve of name k and classifies a
+// cache as the blob cache as soon as a value in it is a remote.Blob (the other one holds layers).
+func (e *verifC12Env) learn(k int, before map[*cacheutil.TTLCache][]string) {
+	e.mu.Lock()
+	defer e.mu.Unlock()
+	for _, c := range e.caches {
+		after := c.VerifC12Keys()
+		for _, key := range verifC12New(before[c], after) {
+			dup := false
+			for _, x := range e.keys[c][k] {
+				dup = dup || x == key
+			}
+			if !dup {
+				e.keys[c][k] = append(e.keys[c][k], key)
+			}
+		}
+		if !e.known[c] {
+			for _, key := range after {
+				if v, ok := c.VerifC12Peek(key); ok {
+					_, e.isBlob[c] = v.(remote.Blob)
+					e.known[c] = true
+					break
+				}
+			}
+		}
+	}
+}
+
+// cachedLocked: is anything cached for name k in a cache of the given role?  (e.mu held)
+func (e *verifC12Env) cachedLocked(k int, blob bool) bool {
+	for _, c := range e.caches {
+		if !e.known[c] || e.isBlob[c] != blob {
+			continue
+		}
+		for _, key := range e.keys[c][k] {
+			if c.VerifC12Has(key) {
+				return true
+			}
+		}
+	}
+	return false
+}
+
+// expire fires the timer path for name k in the cache(s) of the given role.
+func (e *verifC12Env) expire(k int, blob bool) {
+	e.mu.Lock()
+	type ck struct {
+		c   *cacheutil.TTLCache
+		key string
+	}
+	var todo []ck
+	for _, c := range e.caches {
+		if e.known[c] && e.isBlob[c] == blob {
+			for _, key := range e.keys[c][k] {
+				todo = append(todo, ck{c, key})
+			}
+		}
+	}
+	e.mu.Unlock()
+	for _, x := range todo {
+		x.c.VerifC12Expire(x.key)
+	}
+}
 
 // script answers one registry request.  Data fetches carry "Accept-Encoding: identity"; all other
-// requests are control requests: the probe of blob.Check, or redirect/size of resolveFetcher.
-// Which step of Resolve a control request belongs to is read off the implementation's own cache
-// state at request time: during l.Check() the layer is still cached, during the blob's Check() the
-// blob is, during remote.Resolver.Resolve neither is.
+// requests are control requests: the probe of a connectivity check, or redirect/size of the blob
+// resolution.  Which step of Resolve a control request belongs to is read off the implementation's
+// own cache state at request time: during the cached layer's check the layer is still cached,
+// during the cached blob's check the blob is, during a fresh blob resolution neither is.
 func (e *verifC12Env) script(req *http.Request, onCDN bool, seq int) verifreg.Mode {
 	e.mu.Lock()
 	defer e.mu.Unlock()
@@ -203,10 +327,10 @@ func (e *verifC12Env) script(req *http.Request, onCDN bool, seq int) verifreg.Mo
 			return verifreg.Multi
 		}
 		ok := p.bres
-		if !p.lUsed && e.r.layerCache.VerifC12Has(p.key) {
+		if !p.lUsed && e.cachedLocked(p.name, false) {
 			p.lUsed = true
 			ok = p.lchk
-		} else if !p.bUsed && e.r.blobCache.VerifC12Has(p.key) {
+		} else if !p.bUsed && e.cachedLocked(p.name, true) {
 			p.lUsed, p.bUsed = true, true
 			ok = p.bchk
 		} else {
@@ -249,7 +373,11 @@ func (e *verifC12Env) store(sr *io.SectionReader, opts ...metadata.Option) (meta
 	if err != nil {
 		return nil, err
 	}
-	return &verifC12Meta{Reader: mr}, nil
+	w := &verifC12Meta{Reader: mr}
+	e.mu.Lock()
+	e.lastMeta = w
+	e.mu.Unlock()
+	return w, nil
 }
 
 func (e *verifC12Env) newResolver() {
@@ -275,9 +403,19 @@ func (e *verifC12Env) newResolver() {
 		e.t.Fatal(err)
 	}
 	e.r = r
-	e.insts = map[*layer]*verifC12Inst{}
+	e.caches = verifC12Caches(r)
+	if len(e.caches) != 2 {
+		e.t.Fatalf("harness: expected the resolver to own 2 TTL caches (layers, blobs), found %d", len(e.caches))
+	}
+	e.isBlob = map[*cacheutil.TTLCache]bool{}
+	e.known = map[*cacheutil.TTLCache]bool{}
+	e.keys = map[*cacheutil.TTLCache]map[int][]string{}
+	for _, c := range e.caches {
+		e.keys[c] = map[int][]string{}
+	}
+	e.insts = map[uintptr]*verifC12Inst{}
 	e.order = nil
-	e.blobDirs = map[remote.Blob]string{}
+	e.lastHTTP = map[int]string{}
 	e.holders = nil
 	e.cur = map[int]*verifC12Inst{}
 	e.setPlan(verifC12Plan{})
@@ -333,44 +471,39 @@ func verifC12B(b bool) string {
 	return "0"
 }
 
-// observe returns the status vector cRMFBH of one instance, read off the real objects.
-func (e *verifC12Env) observe(in *verifC12Inst) string {
-	c := in.l.isClosed()
-	_, vrErr := in.l.verifiableReader.VerifyTOC(e.srcs[in.name].toc)
-	_, grErr := in.l.verifiableReader.SkipVerify().OpenFile(in.fileID)
-	r := "0"
-	if vrErr != nil && grErr != nil {
-		r = "1"
-	} else if vrErr != nil || grErr != nil {
-		r = "p" // only one of VerifiableReader / reader closed
+// ---- reads through go-fuse's exported node interfaces
+
+func verifC12Open(root fusefs.InodeEmbedder, path string) (fusefs.FileHandle, error) {
+	lk, ok := root.(fusefs.NodeLookuper)
+	if !ok {
+		return nil, fmt.Errorf("root node cannot Lookup")
 	}
-	m := "0"
-	if n := in.meta.closed.Load(); n == 1 {
-		m = "1"
-	} else if n > 1 {
-		m = "2"
+	var eo fuse.EntryOut
+	ino, errno := lk.Lookup(context.Background(), path, &eo)
+	if errno != 0 {
+		return nil, fmt.Errorf("lookup %q: %v", path, errno)
 	}
-	f := !verifC12Exists(in.fsDir)
-	_, bErr := in.blob.ReadAt(nil, 0)
-	h := !verifC12Exists(e.blobDirs[in.blob])
-	return verifC12B(c) + r + m + verifC12B(f) + verifC12B(bErr != nil) + verifC12B(h)
+	op, ok := ino.Operations().(fusefs.NodeOpener)
+	if !ok {
+		return nil, fmt.Errorf("%q cannot be opened", path)
+	}
+	fh, _, errno := op.Open(context.Background(), 0)
+	if errno != 0 {
+		return nil, fmt.Errorf("open %q: %v", path, errno)
+	}
+	return fh, nil
 }
 
-func verifC12Read(root *node, path, want string) error {
-	var eo fuse.EntryOut
-	ino, errno := root.Lookup(context.Background(), path, &eo)
-	if errno != 0 {
-		return fmt.Errorf("lookup %q: %v", path, errno)
+func verifC12Read(root fusefs.InodeEmbedder, path, want string) error {
+	fh, err := verifC12Open(root, path)
+	if err != nil {
+		return err
 	}
-	n, ok := ino.Operations().(*node)
+	rd, ok := fh.(fusefs.FileReader)
 	if !ok {
-		return fmt.Errorf("%q is not a node", path)
+		return fmt.Errorf("%q cannot be read", path)
 	}
-	fh, _, errno := n.Open(context.Background(), 0)
-	if errno != 0 {
-		return fmt.Errorf("open %q: %v", path, errno)
-	}
-	rr, errno := fh.(*file).Read(context.Background(), make([]byte, len(want)), 0)
+	rr, errno := rd.Read(context.Background(), make([]byte, len(want)), 0)
 	if errno != 0 {
 		return fmt.Errorf("read %q: %v", path, errno)
 	}
@@ -384,13 +517,36 @@ func verifC12Read(root *node, path, want string) error {
 	return nil
 }
 
-func verifC12RootOf(l Layer) (*node, error) {
+func verifC12RootOf(l Layer) (fusefs.InodeEmbedder, error) {
 	rn, err := l.RootNode(0)
 	if err != nil {
 		return nil, err
 	}
 	fusefs.NewNodeFS(rn, &fusefs.Options{}) // initialises the root inode
-	return rn.(*node), nil
+	return rn, nil
+}
+
+// observe returns the status vector cRMFBH of one instance, read off the real objects through the
+// exported API: c RootNode refuses; R a file cannot be opened through a root node obtained earlier;
+// M the metadata reader was closed; F the fscache directory is gone; B a (zero-length) blob read
+// through the layer refuses; H the blob's httpcache directory is gone.
+func (e *verifC12Env) observe(in *verifC12Inst) string {
+	_, cErr := in.h0.RootNode(0)
+	r := "?"
+	if in.root != nil {
+		_, rErr := verifC12Open(in.root, "c")
+		r = verifC12B(rErr != nil)
+	}
+	m := "0"
+	if n := in.meta.closed.Load(); n == 1 {
+		m = "1"
+	} else if n > 1 {
+		m = "2"
+	}
+	f := !verifC12Exists(in.fsDir)
+	_, bErr := in.h0.ReadAt(nil, 0)
+	h := !verifC12Exists(in.httpDir)
+	return verifC12B(cErr != nil) + r + m + verifC12B(f) + verifC12B(bErr != nil) + verifC12B(h)
 }
 
 // tail = directory counts + status changes, and the per-op oracle.
@@ -427,7 +583,7 @@ func (e *verifC12Env) oracle(what string) {
 			// the blob goes once every layer instance using it is reclaimed
 			all := true
 			for _, o := range e.order {
-				if o.blob == in.blob && !(o.holders == 0 && o.evicted) {
+				if o.httpDir == in.httpDir && !(o.holders == 0 && o.evicted) {
 					all = false
 				}
 			}
@@ -453,17 +609,18 @@ var verifC12FailModes = []verifreg.Mode{verifreg.ServerErr, verifreg.NetErr, ver
 func (e *verifC12Env) opResolve(k int, o [4]bool, mode verifreg.Mode) {
 	op := fmt.Sprintf("resolve %d %s %s %s %s", k, verifC12B(o[0]), verifC12B(o[1]), verifC12B(o[2]), verifC12B(o[3]))
 	fs0, http0 := e.dirs()
+	keys0 := e.snapshotKeys()
 	prev := e.cur[k]
-	closedBefore := map[*layer]bool{}
-	for _, in := range e.order {
-		closedBefore[in.l] = in.l.isClosed()
-	}
 	mc0 := e.metaCalls.Load()
-	e.setPlan(verifC12Plan{kind: 1, key: e.key(k), lchk: o[0], bchk: o[1], bres: o[2], mres: o[3], mode: mode})
+	e.setPlan(verifC12Plan{kind: 1, name: k, lchk: o[0], bchk: o[1], bres: o[2], mres: o[3], mode: mode})
 	l, err := e.r.Resolve(context.Background(), e.hosts, e.ref, e.srcs[k].desc)
 	e.setPlan(verifC12Plan{})
+	e.learn(k, keys0)
 	metaCalled := e.metaCalls.Load() != mc0
 	fs1, http1 := e.dirs()
+	if nh := verifC12New(http0, http1); len(nh) > 0 {
+		e.lastHTTP[k] = nh[len(nh)-1]
+	}
 	allOK := o[0] && o[1] && o[2] && o[3]
 	if prev != nil && !o[0] {
 		e.evict(prev) // the harness made the cached layer's connectivity check fail
@@ -484,15 +641,17 @@ func (e *verifC12Env) opResolve(k int, o [4]bool, mode verifreg.Mode) {
 		e.out.Emit(op, "err "+cls+e.tail(op))
 		return
 	}
-	lr := l.(*layerRef)
-	in, seen := e.insts[lr.layer]
+	id := verifC12Identity(l)
+	in, seen := e.insts[id]
 	kind := "hit"
+	closedBefore := seen && in.status != "" && in.status[0] == '1'
 	if !seen {
 		kind = "fresh"
-		in = &verifC12Inst{id: len(e.order), l: lr.layer, name: k, blob: lr.layer.blob.Blob}
-		if m, ok := lr.layer.verifiableReader.Metadata().(*verifC12Meta); ok {
-			in.meta = m
-		} else {
+		in = &verifC12Inst{id: len(e.order), name: k, h0: l}
+		e.mu.Lock()
+		in.meta = e.lastMeta
+		e.mu.Unlock()
+		if in.meta == nil || !metaCalled {
 			in.meta = &verifC12Meta{}
 			e.out.Fail("harness-meta-wrapper-missing", op)
 		}
@@ -501,26 +660,19 @@ func (e *verifC12Env) opResolve(k int, o [4]bool, mode verifreg.Mode) {
 		} else {
 			e.out.Fail("fscache-dir-count", fmt.Sprintf("%s: fresh layer but %d new fscache directories", op, len(nf)))
 		}
-		if _, ok := e.blobDirs[in.blob]; !ok {
-			if nh := verifC12New(http0, http1); len(nh) == 1 {
-				e.blobDirs[in.blob] = nh[0]
-			} else {
-				e.blobDirs[in.blob] = ""
-				e.out.Fail("httpcache-dir-count", fmt.Sprintf("%s: fresh blob but %d new httpcache directories", op, len(nh)))
-			}
+		// the blob of a fresh layer: the one resolved during this call, else the one cached for the name
+		if nh := verifC12New(http0, http1); len(nh) > 1 {
+			e.out.Fail("httpcache-dir-count", fmt.Sprintf("%s: %d new httpcache directories", op, len(nh)))
 		}
-		md := lr.layer.verifiableReader.Metadata()
-		if id, _, err := md.GetChild(md.RootID(), "c"); err == nil {
-			in.fileID = id
-		}
+		in.httpDir = e.lastHTTP[k]
 		in.status = "" // so that the new layer shows up in ev
-		e.insts[lr.layer] = in
+		e.insts[id] = in
 		e.order = append(e.order, in)
 	} else if metaCalled {
 		kind = "existing"
 	}
 	// ---- oracle on the returned instance
-	if seen && closedBefore[in.l] {
+	if closedBefore {
 		e.out.Fail("stale-instance-reused", fmt.Sprintf("%s returned layer %d which was already closed", op, in.id))
 	}
 	if prev != nil && !prev.evicted && o[0] && in != prev {
@@ -533,15 +685,18 @@ func (e *verifC12Env) opResolve(k int, o [4]bool, mode verifreg.Mode) {
 		e.out.Fail("two-instances", fmt.Sprintf("%s returned layer %d of another name", op, in.id))
 	}
 	in.holders++
-	h := &verifC12Holder{inst: in, ref: lr, live: true}
+	h := &verifC12Holder{inst: in, ref: l, live: true}
 	e.cur[k] = in
 	e.holders = append(e.holders, h)
-	if err := lr.Verify(e.srcs[k].toc); err != nil {
+	if err := l.Verify(e.srcs[k].toc); err != nil {
 		e.out.Fail("held-layer-closed", fmt.Sprintf("%s: Verify on the returned layer %d: %v", op, in.id, err))
-	} else if root, err := verifC12RootOf(lr); err != nil {
+	} else if root, err := verifC12RootOf(l); err != nil {
 		e.out.Fail("held-layer-closed", fmt.Sprintf("%s: RootNode on the returned layer %d: %v", op, in.id, err))
 	} else {
 		h.root = root
+		if in.root == nil {
+			in.root = root
+		}
 		if err := verifC12Read(root, "a.txt", e.srcs[k].files["a.txt"]); err != nil {
 			sig := "held-layer-closed"
 			if !seen {
@@ -578,30 +733,36 @@ func (e *verifC12Env) opDone(hi int, evict bool) {
 func (e *verifC12Env) opExpire(which string, k int) {
 	op := fmt.Sprintf("expire %s %d", which, k)
 	if which == "l" {
-		e.r.layerCache.VerifC12Expire(e.key(k))
+		e.expire(k, false)
 		e.evict(e.cur[k])
 	} else {
-		e.r.blobCache.VerifC12Expire(e.key(k))
+		e.expire(k, true)
 	}
 	e.out.Count("expire-" + which)
 	e.out.Emit(op, "unit"+e.tail(op))
 }
 
-func (e *verifC12Env) opRefresh(hi int, reg bool, mode verifreg.Mode) {
-	op := fmt.Sprintf("refresh %d %s", hi, verifC12B(reg))
+// opRefresh: how = 1 the registry answers; 0 it does not; 2 it answers but the refreshed source is a
+// blob of another size (Refresh must reject it and leave the mounted layer as it was).
+func (e *verifC12Env) opRefresh(hi int, how int, mode verifreg.Mode) {
+	op := fmt.Sprintf("refresh %d %d", hi, how)
 	h := e.holders[hi]
 	k := h.inst.name
-	e.setPlan(verifC12Plan{kind: 2, reg: reg, mode: mode})
-	err := h.ref.Refresh(context.Background(), e.hosts, e.ref, e.srcs[k].desc)
+	desc := e.srcs[k].desc
+	if how == 2 {
+		desc = e.srcs[(k+1)%verifC12NumNames].desc
+	}
+	e.setPlan(verifC12Plan{kind: 2, reg: how != 0, mode: mode})
+	err := h.ref.Refresh(context.Background(), e.hosts, e.ref, desc)
 	e.setPlan(verifC12Plan{})
 	res := "ok"
 	if err != nil {
 		res = "err"
-		if h.live && reg {
+		if h.live && how == 1 {
 			e.out.Fail("held-layer-closed", fmt.Sprintf("%s: Refresh by a holder of layer %d with the registry up: %v", op, h.inst.id, err))
 		}
 	}
-	e.out.Count("refresh")
+	e.out.Count(fmt.Sprintf("refresh-%d", how))
 	e.out.Emit(op, res+e.tail(op))
 }
 
@@ -618,7 +779,7 @@ func (e *verifC12Env) opRead(hi int, old bool, pi int) {
 		}
 		err = verifC12Read(h.root, path, e.srcs[k].files[path])
 	} else {
-		var root *node
+		var root fusefs.InodeEmbedder
 		if root, err = verifC12RootOf(h.ref); err == nil {
 			err = verifC12Read(root, path, e.srcs[k].files[path])
 		}
@@ -649,6 +810,11 @@ func (e *verifC12Env) drain() {
 	if len(fsd) != 0 || len(httpd) != 0 {
 		e.out.Fail("leak-after-release", fmt.Sprintf("after drain: directories left: %v %v", fsd, httpd))
 	}
+	for _, c := range e.caches {
+		if ks := c.VerifC12Keys(); len(ks) != 0 {
+			e.out.Fail("leak-after-release", fmt.Sprintf("after drain: %d entries left in a cache", len(ks)))
+		}
+	}
 	for _, in := range e.order {
 		if in.status != "111111" {
 			e.out.Fail("leak-after-release", fmt.Sprintf("after drain: layer %d has status cRMFBH=%s", in.id, in.status))
@@ -666,7 +832,7 @@ func (e *verifC12Env) drain() {
 
 // ---------------------------------------------------------------- scripted edge histories
 
-// Tiny op language: "R<k> <lchk><bchk><bres><meta>", "D<h>", "C<h>", "EL<k>", "EB<k>", "F<h> <0|1>",
+// Tiny op language: "R<k> <lchk><bchk><bres><meta>", "D<h>", "C<h>", "EL<k>", "EB<k>", "F<h> <0|1|2>",
 // "r<h>", "o<h>".
 func (e *verifC12Env) runScript(name string, ops []string) {
 	e.newResolver()
@@ -694,7 +860,7 @@ func (e *verifC12Env) runScript(name string, ops []string) {
 			e.opExpire("b", a)
 		case strings.HasPrefix(s, "F"):
 			fmt.Sscanf(s, "F%d %d", &a, &b)
-			e.opRefresh(a, b == 1, verifreg.NetErr)
+			e.opRefresh(a, b, verifreg.NetErr)
 		case strings.HasPrefix(s, "r"):
 			fmt.Sscanf(s, "r%d", &a)
 			e.opRead(a, false, 1)
@@ -727,6 +893,8 @@ var verifC12Scenarios = []struct {
 	{"close-while-others-hold", []string{"R0 1111", "R0 1111", "C0", "r1", "R0 1111", "r1", "r2", "D1", "D2"}},
 	{"double-done-and-close-after-done", []string{"R0 1111", "R0 1111", "D0", "D0", "r1", "C0", "r1", "D1", "D1"}},
 	{"refresh", []string{"R0 1111", "F0 1", "F0 0", "r0", "EL0", "F0 1", "r0", "D0", "F0 1", "o0"}},
+	{"refresh-rejected-other-source", []string{"R0 1111", "F0 2", "r0", "R0 1111", "r1", "D0", "F1 2", "F1 1", "o1", "D1"}},
+	{"old-holder-closes-after-replacement", []string{"R0 1111", "R0 0111", "C0", "R0 1111", "r1", "r2", "D1", "D2", "EL0"}},
 	{"two-names", []string{"R0 1111", "R1 1111", "EL0", "R1 0111", "r0", "r1", "r2", "D0", "C1", "D2"}},
 	{"release-then-expire-vs-expire-then-release", []string{"R0 1111", "D0", "EL0", "R1 1111", "EL1", "D1"}},
 }
@@ -741,7 +909,7 @@ func (e *verifC12Env) randomHistory(rnd *verifutil.Rand, idx int) {
 	n := int(rnd.Range(8, 48))
 	names := 1 + rnd.Intn(verifC12NumNames)
 	failPct := []int{0, 10, 25, 50}[rnd.Intn(4)]
-	wResolve, wDone, wClose, wEL, wEB, wRefresh, wRead, wOld := 30, 14+rnd.Intn(12), rnd.Intn(10), rnd.Intn(14), rnd.Intn(10), 4, 12, 5
+	wResolve, wDone, wClose, wEL, wEB, wRefresh, wRead, wOld := 30, 14+rnd.Intn(12), rnd.Intn(10), rnd.Intn(14), rnd.Intn(10), 5, 12, 5
 	bit := func() bool { return rnd.Intn(100) >= failPct }
 	shape := ""
 	for i := 0; i < n; i++ {
@@ -777,7 +945,13 @@ func (e *verifC12Env) randomHistory(rnd *verifutil.Rand, idx int) {
 		case 4:
 			e.opExpire("b", rnd.Intn(names))
 		case 5:
-			e.opRefresh(pick(), bit(), mode)
+			how := 1
+			if !bit() {
+				how = 0
+			} else if rnd.Intn(3) == 0 {
+				how = 2
+			}
+			e.opRefresh(pick(), how, mode)
 		case 6:
 			e.opRead(pick(), false, rnd.Intn(3))
 		case 7:
@@ -805,10 +979,14 @@ func TestVerifC12(t *testing.T) {
 
 // ---------------------------------------------------------------- concurrent stress (oracle only)
 
-// Several goroutines resolve ONE name at the same time.  Phase A: cold cache, no eviction, registry
-// up: everybody must get the same instance and read through it.  Phase B: holders read while others
-// release / expire / resolve with failing checks.  Phase C: everybody releases, everything expires:
-// nothing may be left, and the name resolves afresh.
+// Several goroutines resolve ONE name at the same time.
+// Phase A: cold cache, no eviction, registry up: everybody must get the same instance, exactly one
+//   layer is built (the others wait for it and take it from the cache), everybody reads.
+// Phase A2: the cached layer's connectivity check fails for everybody (registry answers checks
+//   with an error, everything else normally): the stale layer is replaced ONCE; all resolvers end
+//   up with one and the same new instance, one layer is built.
+// Phase B: holders read while others release / expire / resolve.
+// Phase C: everybody releases, everything expires: nothing may be left, the name resolves afresh.
 func TestVerifC12Conc(t *testing.T) {
 	out := verifutil.OpenOut()
 	defer out.Close()
@@ -823,85 +1001,148 @@ func TestVerifC12Conc(t *testing.T) {
 	}
 }
 
+func (e *verifC12Env) expireAll() {
+	for _, c := range e.caches {
+		for _, key := range c.VerifC12Keys() {
+			c.VerifC12Expire(key)
+		}
+	}
+}
+
 func verifC12ConcRound(e *verifC12Env, round uint64) {
 	const G = 6
 	k := int(round) % verifC12NumNames
 	src := e.srcs[k]
 	ctx := context.Background()
-	var seen sync.Map // *layer -> struct{}
+	var seenMu sync.Mutex
+	seen := map[uintptr]Layer{} // instance -> one handle of it
 	var verifyMu sync.Mutex
-	verified := map[*layer]bool{}
-	resolveRead := func(tag string) *layerRef {
+	verified := map[uintptr]bool{}
+	closedNow := func(l Layer) bool { // RootNode refuses once the layer is closed
+		verifyMu.Lock()
+		defer verifyMu.Unlock()
+		_, err := l.RootNode(0)
+		return err != nil
+	}
+	resolveRead := func(tag string) Layer {
 		l, err := e.r.Resolve(ctx, e.hosts, e.ref, src.desc)
 		if err != nil {
 			e.out.Fail("reresolve-failed", fmt.Sprintf("concurrent %s: Resolve with the registry up: %v", tag, err))
 			return nil
 		}
-		lr := l.(*layerRef)
-		seen.Store(lr.layer, struct{}{})
+		id := verifC12Identity(l)
+		seenMu.Lock()
+		if _, ok := seen[id]; !ok {
+			seen[id] = l
+		}
+		seenMu.Unlock()
 		// layer.Verify writes l.r / l.verified and reader.verify without synchronisation while
 		// RootNode reads l.r and every file read reads reader.verify: a second Verify of a shared
 		// layer races with the first holder's reads (a data race of the unchanged tree that is not
 		// part of this property; reported to the lead).  So each instance is verified once, by the
 		// first goroutine that sees it, before anybody reads through it.
 		verifyMu.Lock()
-		if !verified[lr.layer] {
-			err = lr.Verify(src.toc)
-			verified[lr.layer] = err == nil
+		if !verified[id] {
+			err = l.Verify(src.toc)
+			verified[id] = err == nil
 		}
-		var root *node
+		var root fusefs.InodeEmbedder
 		if err == nil {
-			root, err = verifC12RootOf(lr)
+			root, err = verifC12RootOf(l)
 		}
 		verifyMu.Unlock()
 		if err != nil {
 			e.out.Fail("held-layer-closed", fmt.Sprintf("concurrent %s: Verify/RootNode: %v", tag, err))
-			return lr
+			return l
 		}
 		err = verifC12Read(root, "b.bin", src.files["b.bin"])
 		if err != nil {
 			e.out.Fail("held-layer-closed", fmt.Sprintf("concurrent %s: holder cannot read: %v", tag, err))
 		}
-		return lr
+		return l
+	}
+	together := func(tag string) []Layer {
+		refs := make([]Layer, G)
+		var wg sync.WaitGroup
+		start := make(chan struct{})
+		for g := 0; g < G; g++ {
+			wg.Add(1)
+			go func(g int) {
+				defer wg.Done()
+				<-start
+				refs[g] = resolveRead(tag)
+			}(g)
+		}
+		mc0 := e.metaCalls.Load()
+		close(start)
+		wg.Wait()
+		if n := e.metaCalls.Load() - mc0; n != 1 {
+			// "share a single resolved instance": the first resolver resolves, the others wait for it
+			// and take its layer from the cache; nobody builds a second layer
+			e.out.Fail("two-instances", fmt.Sprintf("concurrent %s: %d layer instances were built for one name by concurrent resolvers", tag, n))
+		}
+		for g := 1; g < G; g++ {
+			if refs[g] != nil && refs[0] != nil && verifC12Identity(refs[g]) != verifC12Identity(refs[0]) {
+				e.out.Fail("two-instances", fmt.Sprintf("concurrent %s: concurrent resolvers of one name got different instances", tag))
+				break
+			}
+		}
+		return refs
 	}
 	// ---- phase A
-	refs := make([]*layerRef, G)
-	var wg sync.WaitGroup
-	start := make(chan struct{})
-	for g := 0; g < G; g++ {
-		wg.Add(1)
-		go func(g int) {
-			defer wg.Done()
-			<-start
-			refs[g] = resolveRead("phase A")
-		}(g)
+	refs := together("phase A")
+	e.out.Count("conc-phaseA")
+	// ---- phase A2: the cached layer turns stale for everybody at once.  Every connectivity probe of
+	// a cached object fails until one fresh blob resolution has completed (that resolution issues
+	// the only HEAD request), then the registry is fine again.
+	old := uintptr(0)
+	if refs[0] != nil {
+		old = verifC12Identity(refs[0])
 	}
-	mc0 := e.metaCalls.Load()
-	close(start)
-	wg.Wait()
-	if n := e.metaCalls.Load() - mc0; n != 1 {
-		// "share a single resolved instance": the first resolver resolves, the others wait for it
-		// on the per-name lock and take its layer from the cache; nobody builds a second layer
-		e.out.Fail("two-instances", fmt.Sprintf("concurrent phase A: %d layer instances were built for one name by concurrent resolvers", n))
+	var healed atomic.Bool
+	e.reg.Script = func(req *http.Request, onCDN bool, seq int) verifreg.Mode {
+		if req.Method == "HEAD" {
+			healed.Store(true)
+			return verifreg.Multi
+		}
+		if req.Header.Get("Accept-Encoding") != "identity" && !healed.Load() {
+			// a probe (GET bytes=0-1): check of a cached layer/blob, or the redirect probe of a resolution
+			e.mu.Lock()
+			stale := e.cachedLocked(k, false) || e.cachedLocked(k, true)
+			e.mu.Unlock()
+			if stale {
+				return verifreg.ServerErr
+			}
+		}
+		return verifreg.Multi
 	}
-	for g := 1; g < G; g++ {
-		if refs[g] != nil && refs[0] != nil && refs[g].layer != refs[0].layer {
-			e.out.Fail("two-instances", "concurrent phase A: concurrent resolvers of one name got different instances")
+	e.learn(k, map[*cacheutil.TTLCache][]string{})
+	refs2 := together("phase A2 (stale cached layer)")
+	e.reg.Script = e.script
+	for _, l := range refs2 {
+		if l != nil && old != 0 && verifC12Identity(l) == old {
+			e.out.Fail("stale-instance-reused", "concurrent phase A2: the layer whose connectivity check failed was returned again")
 			break
 		}
 	}
-	e.out.Count("conc-phaseA")
+	for _, l := range refs { // the first generation of holders still reads
+		if l != nil && closedNow(l) {
+			e.out.Fail("held-layer-closed", "concurrent phase A2: the replaced layer was closed under its holders")
+			break
+		}
+	}
+	e.out.Count("conc-phaseA2")
 	// ---- phase B
 	var stop atomic.Bool
+	var wg sync.WaitGroup
 	wg.Add(1)
 	go func() { // the timers
 		defer wg.Done()
 		rnd := verifutil.NewRand(verifutil.Seed()*7919 + round)
 		for !stop.Load() {
-			if rnd.Bool() {
-				e.r.layerCache.VerifC12Expire(e.key(k))
-			} else {
-				e.r.blobCache.VerifC12Expire(e.key(k))
+			c := e.caches[rnd.Intn(len(e.caches))]
+			for _, key := range c.VerifC12Keys() {
+				c.VerifC12Expire(key)
 			}
 			time.Sleep(time.Duration(rnd.Intn(300)) * time.Microsecond)
 		}
@@ -912,20 +1153,22 @@ func verifC12ConcRound(e *verifC12Env, round uint64) {
 		go func(g int) {
 			defer wg2.Done()
 			rnd := verifutil.NewRand(verifutil.Seed()*104729 + round*131 + uint64(g))
-			held := []*layerRef{}
-			if refs[g] != nil {
-				held = append(held, refs[g])
+			held := []Layer{}
+			for _, l := range []Layer{refs[g], refs2[g]} {
+				if l != nil {
+					held = append(held, l)
+				}
 			}
 			for i := 0; i < 25; i++ {
 				switch rnd.Pick(4, 3, 1, 4) {
 				case 0:
-					if lr := resolveRead("phase B"); lr != nil {
-						held = append(held, lr)
+					if l := resolveRead("phase B"); l != nil {
+						held = append(held, l)
 					}
 				case 1, 2:
 					if len(held) > 0 {
 						j := rnd.Intn(len(held))
-						if held[j].isClosed() {
+						if closedNow(held[j]) {
 							e.out.Fail("held-layer-closed", "concurrent phase B: layer closed under its holder")
 						}
 						if rnd.Intn(3) == 0 {
@@ -937,9 +1180,9 @@ func verifC12ConcRound(e *verifC12Env, round uint64) {
 					}
 				case 3:
 					if len(held) > 0 {
-						lr := held[rnd.Intn(len(held))]
+						l := held[rnd.Intn(len(held))]
 						verifyMu.Lock()
-						root, err := verifC12RootOf(lr)
+						root, err := verifC12RootOf(l)
 						verifyMu.Unlock()
 						if err == nil {
 							err = verifC12Read(root, "a.txt", src.files["a.txt"])
@@ -950,11 +1193,11 @@ func verifC12ConcRound(e *verifC12Env, round uint64) {
 					}
 				}
 			}
-			for _, lr := range held {
-				if lr.isClosed() {
+			for _, l := range held {
+				if closedNow(l) {
 					e.out.Fail("held-layer-closed", "concurrent phase B: layer closed under its holder (final)")
 				}
-				lr.Done()
+				l.Done()
 			}
 		}(g)
 	}
@@ -963,21 +1206,19 @@ func verifC12ConcRound(e *verifC12Env, round uint64) {
 	wg.Wait()
 	e.out.Count("conc-phaseB")
 	// ---- phase C
-	e.r.layerCache.VerifC12Expire(e.key(k))
-	e.r.blobCache.VerifC12Expire(e.key(k))
+	e.expireAll()
 	n := 0
-	seen.Range(func(key, _ any) bool {
+	for _, l := range seen {
 		n++
-		if !key.(*layer).isClosed() {
+		if !closedNow(l) {
 			e.out.Fail("leak-after-release", "concurrent phase C: a layer instance is not closed after every holder released it and it expired")
 		}
-		return true
-	})
+	}
 	if fsd, httpd := e.dirs(); len(fsd) != 0 || len(httpd) != 0 {
 		e.out.Fail("leak-after-release", fmt.Sprintf("concurrent phase C: directories left: %d fscache, %d httpcache", len(fsd), len(httpd)))
 	}
-	if lr := resolveRead("phase C"); lr != nil {
-		lr.Close()
+	if l := resolveRead("phase C"); l != nil {
+		l.Close()
 	}
 	e.out.Distinct(fmt.Sprintf("conc-round-%d-instances-%d", round, min(n, 8)))
 }
